@@ -1355,29 +1355,14 @@ impl<T> TLengthProtocol for TCompactInputProtocol<T> {
     fn field_begin_len(&mut self, field_type: TType, id: Option<i16>) -> usize {
         // `id` is an Option<i16> following trait [`TLengthProtocol`]
         // field_begin_len.
-        match field_type {
-            TType::Bool => {
-                if self.pending_read_bool_field_identifier.is_some() {
-                    panic!(
-                        "should not have a pending bool while reading another bool with id: \
-                        {:?}",
-                        id,
-                    )
-                }
-                self.pending_read_bool_field_identifier = Some(TFieldIdentifier {
-                    name: None,
-                    field_type,
-                    id,
-                });
-                0
-            }
-            _ => {
-                let tc_field_type = TCompactType::try_from(field_type).unwrap(); // this should never happen
-                let mut ax = 0;
-                read_field_header_len!(self, ax, tc_field_type, id.expect("expecting a field id"));
-                ax
-            }
-        }
+        //
+        // On the reading side the header has already been consumed and its
+        // length does not depend on the value of a bool carried in it, so
+        // (unlike on the writing side) a bool field defers nothing to `bool_len`.
+        let tc_field_type = TCompactType::try_from(field_type).unwrap(); // this should never happen
+        let mut ax = 0;
+        read_field_header_len!(self, ax, tc_field_type, id.expect("expecting a field id"));
+        ax
     }
     #[inline]
     fn field_end_len(&mut self) -> usize {
